@@ -1,7 +1,7 @@
 (* Spec/Spec.v — the specification layer: what the user means.  Independent of the
    model's mechanisms (no stack, no cursor, no bottom-up prefix assembly). *)
 From Coq Require Import List Ascii Arith Bool.
-From GT Require Import Base.GoStr Tree.Tree Tree.Grower.
+From GT Require Import Base.GoStr Tree.Tree Tree.Grower Out.Walker.
 Import ListNotations.
 
 (* ---- "equally named siblings under one parent are a single node" ---- *)
@@ -73,7 +73,7 @@ Fixpoint add_at_depth (d : nat) (nm : str) (t : tree) {struct d} : tree :=
 
 Fixpoint forest_of_items (items : list (nat * str)) (acc : list tree) : list tree :=
   match items with
-  | [] => rev acc
+  | [] => frev acc
   | (d, nm) :: r =>
       if d <=? 1 then forest_of_items r (T nm [] :: acc)
       else match acc with
@@ -81,3 +81,31 @@ Fixpoint forest_of_items (items : list (nat * str)) (acc : list tree) : list tre
            | t :: acc' => forest_of_items r (add_at_depth (d - 1) nm t :: acc')
            end
   end.
+
+(* ---- what a walk must show at each node (C05), top-down ---- *)
+Fixpoint sv_sub (bf : bfmt) (prefix ppath : str) (d : nat) (islast : bool) (t : tree) {struct t} : list visit :=
+  match t with
+  | T n ks =>
+      let br := prefix ++ (if islast then last_d bf else mid_d bf) in
+      let p := ppath ++ [c_slash] ++ n in
+      {| v_name := n; v_branch := br; v_row := br ++ [c_sp] ++ n; v_level := d; v_path := p;
+         v_haschild := negb (is_nil ks) |} ::
+      (fix go (l : list tree) : list visit :=
+         match l with
+         | [] => []
+         | k :: r => sv_sub bf (prefix ++ (if islast then last_i bf else mid_i bf)) p (S d) (is_nil r) k ++ go r
+         end) ks
+  end.
+
+Definition sv_root (bf : bfmt) (t : tree) : list visit :=
+  match t with
+  | T n ks =>
+      {| v_name := n; v_branch := []; v_row := n; v_level := 1; v_path := n; v_haschild := negb (is_nil ks) |} ::
+      (fix go (l : list tree) : list visit :=
+         match l with
+         | [] => []
+         | k :: r => sv_sub bf [] n 2 (is_nil r) k ++ go r
+         end) ks
+  end.
+
+Definition spec_visits (bf : bfmt) (f : list tree) : list visit := flat_map (sv_root bf) f.
